@@ -368,6 +368,29 @@ def run_case(case, workdir):
                     near = bool(sm.shared_face_pixels(m, L).any())
                     rec.fail("serial_parallel_or_poison_dependent", {"normal": n, "m": m, "fields": fl, "limit_level": limit,
                              "only_near_shared_face": near}, "outputs differ between serial/poison0 and parallel/poison1")
+    # other spellings of the position: where the lattice value is a whole number it is also given as a Python int and as a NumPy
+    # integer; every lattice value also as np.float64 and (where exact) np.float32 - the slice must be the one of the float
+    for m in positions:
+        p0 = sm.pos_of(m)
+        forms = [("np.float64", np.float64(p0))]
+        if float(np.float32(p0)) == p0:
+            forms.append(("np.float32", np.float32(p0)))
+        if p0 == int(p0) and abs(p0) < 2 ** 40:
+            forms += [("int", int(p0)), ("np.int64", np.int64(int(p0)))]
+        if len(forms) == 1 and m % 4:
+            continue
+        st0, base = do(["A", "G", "grid_level"], None, True, p0, 0)
+        for tag_, pv in forms:
+            st, val = do(["A", "G", "grid_level"], None, True, pv, 0)
+            rec.exe([dh, "spelling", m, tag_])
+            sub = {"normal": n, "m": m, "pos": repr(pv), "position_given_as": tag_, "fields": ["A", "G", "grid_level"], "limit_level": None, "serial": True, "poison": 0}
+            if (st == "exc") != (st0 == "exc"):
+                rec.fail("raised", sub, exc_text(val) if st == "exc" else "the float position is refused, this spelling is answered")
+            elif st != "exc":
+                same = all(np.array_equal(np.asarray(base[k], dtype=float).view(np.uint64), np.asarray(val[k], dtype=float).view(np.uint64))
+                           for k in base if isinstance(base[k], np.ndarray))
+                if not same:
+                    rec.fail("position_spelling", sub, "the slice differs from the slice at the same position given as a float")
     # positions a few ulps / 1e-9 cell beside every lattice position (cell centres, faces, quarter points)
     dxf = ref.dx[nlev - 1][n]
     for m in positions:
